@@ -3,6 +3,7 @@ package harness
 import (
 	"fmt"
 	"math/rand"
+	"os"
 	"runtime"
 	"sort"
 	"strings"
@@ -28,6 +29,18 @@ type Prop struct {
 }
 
 var Props = map[string]*Prop{}
+
+// Thorough is set from VERIF_TIER=thorough: generators draw larger scenarios
+// (more callers, longer histories) and the scheduler allows more steps per run.
+var Thorough = os.Getenv("VERIF_TIER") == "thorough"
+
+// scale returns q in the quick tier and th in the thorough tier.
+func scale(q, th int) int {
+	if Thorough {
+		return th
+	}
+	return q
+}
 
 func Register(p *Prop) { Props[p.ID] = p }
 
